@@ -5,6 +5,7 @@ use rateslib::dual::{Dual, Dual2, Number, NumberMapping};
 use rateslib::splines::{
     bspldnev_single_dual, bspldnev_single_dual2, bspldnev_single_f64, bsplev_single_dual, bsplev_single_dual2, bsplev_single_f64, PPSpline,
 };
+use rateslib::verif::spline_py as spy;
 use serde_json::{json, Value};
 
 fn basis_event(key: &str, k: usize, t: &Vec<f64>, xs: &[f64]) -> Value {
@@ -172,7 +173,7 @@ fn run_scenario(key: &str, s: &Scenario, kind: &str, r: &mut Rng) -> Value {
     let head = json!({"key": key, "op": "spline", "k": s.k, "t": fvec(&s.t), "tau": fvec(&s.tau), "y": numvec(&y), "left_n": s.left_n, "right_n": s.right_n,
                       "lsq": s.lsq, "kind": kind, "layout": s.layout, "n": n, "poly": fvec(&s.poly)});
     macro_rules! go {
-        ($T:ty, $unwrap:expr, $wrap:expr) => {{
+        ($T:ty, $unwrap:expr, $wrap:expr, $pnew:path, $pcsolve:path, $peval:path, $pvec:path, $pbasis:path, $pcoef:path, $pmisc:path) => {{
             let mut sp: PPSpline<$T> = PPSpline::new(s.k, s.t.clone(), None);
             let yy: Vec<$T> = y.iter().map($unwrap).collect();
             let before = guard(|| sp.ppdnev_single(&xs[0], 0).is_err());
@@ -204,15 +205,41 @@ fn run_scenario(key: &str, s: &Scenario, kind: &str, r: &mut Rng) -> Value {
                         ev.push(json!({"fn": "mapped_value", "x": number_json(x), "m": 0, "o": oc, "res": rj}));
                     }
                     h["ev"] = Value::Array(ev);
+                    // the same spline through the Python-facing class: construct, solve, read back, every
+                    // single-point method x every abscissa kind, the vector methods, copy / equality
+                    let pyres = guard(|| -> Result<Value, String> {
+                        let mut psp = $pnew(s.k, s.t.clone(), None);
+                        $pcsolve(&mut psp, s.tau.clone(), yy.clone(), s.left_n, s.right_n, s.lsq)?;
+                        let (pn, pk, pt, pc) = $pcoef(&psp)?;
+                        let mut pev = vec![];
+                        for x in absc.iter() {
+                            for f in ["ppev_single", "ppev_single_dual", "ppev_single_dual2", "ppdnev_single", "ppdnev_single_dual", "ppdnev_single_dual2"] {
+                                for m in 0..=2usize {
+                                    if f.starts_with("ppev") && m > 0 { continue; }
+                                    let (oc, rj) = match $peval(&psp, f, x.clone(), m) { Ok(v) => ("ok".to_string(), number_json(&v)), Err(c) => (c, json!({"k":"dead"})) };
+                                    pev.push(json!({"fn": f, "x": number_json(x), "m": m, "o": oc, "res": rj}));
+                                }
+                            }
+                        }
+                        let vx: Vec<f64> = xs.iter().take(4).cloned().collect();
+                        let v0 = $pvec(&psp, vx.clone(), None)?;
+                        let v1 = $pvec(&psp, vx.clone(), Some(1))?;
+                        let b0 = $pbasis(&psp, vx.clone(), 0, None)?;
+                        let b1 = $pbasis(&psp, vx.clone(), pn - 1, Some(1))?;
+                        let (eqc, _json) = $pmisc(&psp)?;
+                        Ok(json!({"n": pn, "k": pk, "t": fvec(&pt), "c": pc.map(|c| numvec(&c)).unwrap_or(json!([])), "ev": pev,
+                                  "vx": fvec(&vx), "ppev": numvec(&v0), "ppdnev1": numvec(&v1), "bsplev0": fvec(&b0), "bspldnev_last1": fvec(&b1), "copy_eq": eqc}))
+                    });
+                    h["py"] = match pyres { Outcome::Ok(Ok(v)) => v, Outcome::Ok(Err(c)) => json!({"fail": c}), Outcome::Panic(_) => json!({"fail": "panic"}) };
                     h
                 }
             }
         }};
     }
     let mut h = match kind {
-        "F" => go!(f64, |v: &Number| number_re(v), Number::F64),
-        "D1" => go!(Dual, |v: &Number| Dual::from(v.clone()), Number::Dual),
-        _ => go!(Dual2, |v: &Number| Dual2::from(v.clone()), Number::Dual2),
+        "F" => go!(f64, |v: &Number| number_re(v), Number::F64, spy::f64_new, spy::f64_csolve, spy::f64_eval, spy::f64_vec, spy::f64_basis, spy::f64_coef, spy::f64_misc),
+        "D1" => go!(Dual, |v: &Number| Dual::from(v.clone()), Number::Dual, spy::dual_new, spy::dual_csolve, spy::dual_eval, spy::dual_vec, spy::dual_basis, spy::dual_coef, spy::dual_misc),
+        _ => go!(Dual2, |v: &Number| Dual2::from(v.clone()), Number::Dual2, spy::dual2_new, spy::dual2_csolve, spy::dual2_eval, spy::dual2_vec, spy::dual2_basis, spy::dual2_coef, spy::dual2_misc),
     };
     // unit-data solutions (float splines solved on e_j): the sensitivities of the spline to each datum
     if h["o"] == "ok" && kind != "F" && !s.lsq {
